@@ -132,23 +132,29 @@ func checkC15(c *Ctx) {
 			if !ok || mc.Fn != ssa.Value(g) {
 				return
 			}
-			for _, ref := range *mc.Referrers() {
-				switch x := ref.(type) {
-				case *ssa.Send:
-					n++
-					if !eng.SameField(eng.LoadedField(x.Chan), fOp) {
+			var uses func(v ssa.Value)
+			uses = func(v ssa.Value) {
+				for _, ref := range *v.Referrers() {
+					switch x := ref.(type) {
+					case *ssa.Send:
+						n++
+						if !eng.SameField(eng.LoadedField(x.Chan), fOp) {
+							okAll = false
+						}
+					case *ssa.Call:
+						n++
+						if !enqueuer[eng.StaticCallee(x.Common())] {
+							okAll = false
+						}
+					case *ssa.ChangeType:
+						uses(x) // conversion to a named func type
+					case *ssa.DebugRef:
+					default:
 						okAll = false
 					}
-				case *ssa.Call:
-					n++
-					if !enqueuer[eng.StaticCallee(x.Common())] {
-						okAll = false
-					}
-				case *ssa.DebugRef:
-				default:
-					okAll = false
 				}
 			}
+			uses(mc)
 		})
 		return okAll && n > 0
 	}
@@ -172,12 +178,9 @@ func checkC15(c *Ctx) {
 				return
 			}
 			nAcc++
-			okA := false
-			for g := fn; g != nil; g = g.Parent() {
-				if isOpClosure(g) {
-					okA = true
-				}
-			}
+			// inside an operation closure, or in a helper that is only ever reached from
+			// operation closures (or the constructor)
+			okA, _ := p.OnlyReachedFrom(fn, func(g *ssa.Function) bool { return isOpClosure(g) || g == hubNew })
 			if !okA {
 				badActor["Hub."+f.Name()+"@"+shortFn(fn)] = p.InstrPos(in)
 			}
@@ -194,7 +197,7 @@ func checkC15(c *Ctx) {
 	if len(ks) == 0 {
 		r.Ok("C15/ACTOR", "hub-state", p.Pos(hubNew.Pos()), "%d accesses of Hub.history/listeners, all inside closures enqueued on opChan", nAcc)
 	}
-	r.Floor("C15/ACTOR", "accesses of Hub.history/listeners", nAcc, 8)
+	r.Floor("C15/ACTOR", "accesses of Hub.history/listeners", nAcc, 1)
 	ops := eng.ChanOps(p.Funcs)
 	var opKey string
 	for k := range ops {
@@ -232,7 +235,7 @@ func checkC15(c *Ctx) {
 
 	// ---- D2..D4 over listener implementers
 	impls := c.listenerImpls()
-	r.Floor("C15/NOBLOCK/listener", "msghub.Listener implementers (non-test)", len(impls), 2)
+	r.Floor("C15/NOBLOCK/listener", "msghub.Listener implementers (non-test)", len(impls), 1)
 	isolated := true
 	for _, T := range impls {
 		tname := eng.ShortType(T)
@@ -325,7 +328,7 @@ func checkC15(c *Ctx) {
 			r.Ok("C15/CLOSED-TEST", name, "", "no receive-as-closed-test")
 		}
 	}
-	r.Floor("C15/CLOSE-RACE", "listener-owned channels", len(lks), 2)
+	r.Floor("C15/CLOSE-RACE", "listener-owned channels", len(lks), 1)
 	if isolated {
 		r.Ok("C15/ISOLATE", "hub-broadcast", p.Pos(hubNew.Pos()), "all Listener implementers are non-blocking and cannot panic on their queue")
 	} else {
